@@ -12,8 +12,12 @@ def write(pid, tier, seed, level, coverage, assumptions, wall_s, violations, ext
     }
     if extra:
         d.update(extra)
-    os.makedirs(os.path.join(VERIF, 'evidence'), exist_ok=True)
-    p = os.path.join(VERIF, 'evidence', '%s.json' % pid)
+    # /verif/evidence describes runs against /repo itself; a run pointed at another tree (VERIF_REPO: a scratch copy with
+    # a seeded or a benign change applied) leaves its evidence under /verif/out instead
+    repo = os.path.realpath(os.environ.get('VERIF_REPO', '/repo'))
+    edir = os.path.join(VERIF, 'evidence') if repo == os.path.realpath('/repo') else os.path.join(VERIF, 'out', 'evidence-other-tree')
+    os.makedirs(edir, exist_ok=True)
+    p = os.path.join(edir, '%s.json' % pid)
     tmp = p + '.tmp.%d' % os.getpid()
     with open(tmp, 'w') as f:
         json.dump(d, f, indent=1, sort_keys=True, default=str)
